@@ -172,11 +172,12 @@ def _operand_index(recv, var):
 
 def r2_ordinal(ctx, cfg='A'):
     ctx.set_rule('C11.R2', cfg)
-    from .dispatch import dispatch_iterations, HANDLE
+    from .dispatch import dispatch_iterations, counter_field, HANDLE
     f, its, form = dispatch_iterations(ctx, cfg)
     if not f:
         ctx.violation('anchor:dispatch_event', 'unresolved-anchor'); return
     ctx.touch(f)
+    CNT = counter_field(ctx, cfg)
     ap = f.calls_to(LIM + '::applies')
     if not ctx.floor('limit evaluation in dispatch_event', len(ap), 1):
         return
@@ -185,7 +186,7 @@ def r2_ordinal(ctx, cfg='A'):
     cnt = peel(f.expr_operand(s.args[1], s.b, 'T'))
     tm = peel(f.expr_operand(s.args[2], s.b, 'T'))
     c = cnt[1] if (cnt[0] == 'field' and cnt[1][0] == 'bin') else cnt
-    ok_cnt = c[0] == 'bin' and c[1].startswith('Add') and peel(c[2])[0] == 'field' and peel(c[2])[2] == 'itr' and c[3] == ('int', 1)
+    ok_cnt = c[0] == 'bin' and c[1].startswith('Add') and peel(c[2])[0] == 'field' and CNT is not None and peel(c[2])[2] == CNT and c[3] == ('int', 1)
     ok_tm = tm[0] == 'field' and tm[2] == '1' and peel(tm[1])[0] == 'call' and peel(tm[1])[1].endswith('FutureEventSet::fetch_next')
     ok_recv = recv[0] == 'field' and recv[2] == 'limit'
     ctx.check(ok_cnt and ok_tm and ok_recv, 'ordinal-and-time',
@@ -197,7 +198,7 @@ def r2_ordinal(ctx, cfg='A'):
         ev = it.stream()
         for i, e in enumerate(ev):
             what = None
-            if e[0] == 'w' and e[2] == 'itr':
+            if e[0] == 'w' and e[2] == CNT:
                 what = 'counter increment'
             elif e[0] == 'c' and 'des::time::SimTime::set_now' in e[1].names():
                 what = 'clock write'
